@@ -2,7 +2,7 @@ import SaModel.Props.C06
 import SaModel.Lemmas.C06Interp
 import SaModel.Lemmas.C06Side
 import SaModel.Lemmas.C06NewRoot
-import SaModel.Props.C01Complete
+import SaModel.Props.C01CompleteObs
 import SaModel.Props.C01
 import SaModel.Props.C02
 import SaModel.Props.C03Read
@@ -19,23 +19,25 @@ C06 — a schema traced from samples accepts those same samples: the chain close
   fromSamples_interpRow … in the form the builder theorems use (`Spec.interpRow` against the traced schema)
   to_schema_typed       every traced schema is well typed (`typedFs`), `total` and keyed by UInt32
   C06_closure_build     trace ⇒ build: `to_marrow` with the traced schema SUCCEEDS on the whole collection
-                        (`Props.C01.toMarrow_complete`, all schema hypotheses discharged but `safeSchema`)
+                        (`Props.C01.toMarrow_complete'`, ALL schema hypotheses discharged: input-side hypotheses + capacity)
   C06_closure_decode    whenever `to_marrow` returns arrays, they decode (Arrow reading rules) column by column to
-                        `interpRow` of the samples (`Props.C01.C01_build_decode`)
+                        `interpRow` of the samples (`Props.C01.C01_build_decode'`)
   C06_closure_readback  … and `deserialize_any` on the arrays returns those logical values — NO reader-side hypothesis
                         (`Props.C03.toMarrow_readAny`: the built arrays satisfy the reader preconditions of C02); for tracing
                         options without dictionary-encoded strings.  `C06_closure_readback_partial`: all options, with the size
                         precondition `Read.physical` of the dictionary columns as a hypothesis (derived by
                         `C06_closure_physical` under the capacity bound)
   C06_closure           the composition, options without dictionary encoding: hypotheses on the input only
-  C06_closure_dict      the composition for every option: + `safeSchema` (C01's `Safe`, decidable on the traced schema)
+  C06_closure_dict      the composition for every option: hypotheses on the input only (capacity bound strict)
+No theorem of this file carries C01's `Safe` any more: the builder side is the hidden-rows refinement of Props/C01Obs.lean /
+Props/C01CompleteObs.lean.  `safeSchema` (the former hypothesis) is kept below only to state what the old theorems excluded
+(`safeSchema_can_fail`, now an instance of `C06_closure_dict`).
 
 Exclusions, each an explicit decidable predicate on (data type of the traced field, sample) — `Lemmas/C06Excl.lean`:
 the three DOCUMENTED ones `nullAtEnum`, `dateLookalike`, `u64AboveI64`; the known finding `dataLessNewtype`; lifted to
 nested samples by `hits` (some position the mapping visits).  (The finding of this proof, `unitStructAtValue`, is repaired —
 repo fix ae2fc46, `unitStruct_accepted` / `unitStruct_pinned` — and no longer an exclusion.)  On the builder
-side: C01's `Safe` as the decidable schema predicate `safeSchema` (a theorem without dictionary-encoding options; can fail with
-them, `safeSchema_can_fail`) and the capacity bound `Σ vsize ≤ 2^31 - 1`.  `total` and `typedFs` are theorems (`to_schema_typed`;
+side: only the capacity bound `Σ vsize ≤ 2^31 - 1`.  `total` and `typedFs` are theorems (`to_schema_typed`;
 the traced instance of `total`, finding `C06-unseen-first-variant-default`, is repaired — repo fix 837fa53).  `excl_*_needed`: each exclusion is needed (a traced collection whose
 sample the mapping refuses exactly there).
 Repaired code (`Code.fixed`), options without overwrites (an overwrite replaces a traced field by an arbitrary one).
@@ -157,7 +159,8 @@ theorem to_schema_typed (o : Options) (h0 : o.overwrites = []) {xs : List SVal} 
 
 /-- C01's `Safe` as a DECIDABLE predicate on the schema (`Lemmas/C06SafeS.lean`): no dictionary with non-nullable keys
 where a nullable struct's `serialize_default` can reach it (through struct children and the first real variant of a
-union) -/
+union).  NO LONGER a hypothesis of any theorem of this file — kept (with `fromSamples_safe_iff`, `fromSamples_safeSchema`,
+`safeSchema_can_fail`) to state what the former theorems excluded and the present ones cover. -/
 def safeSchema (fields : List Field) : Bool := Lemmas.C06.safeFs (Fields.ofList fields)
 
 /-- for a traced schema, C01's `Safe` of the fresh root builder IS `safeSchema` (exact) -/
@@ -188,27 +191,22 @@ theorem fromSamples_room (o : Options) (h0 : o.overwrites = []) {xs : List SVal}
 Hypotheses, all explicit and decidable:
   `hok`    the samples are serde values a Rust program can produce (`sampleOK`);
   `hex`    none of the exclusions: the three documented ones and `dataLessNewtype` (known finding);
-  `hsafe`  `safeSchema fields`: C01's `Safe` (`fromSamples_safe_iff`: exactly `Safe` of the fresh builder) — no dictionary
-           with non-nullable keys below a nullable struct.  It holds by theorem when no option dictionary-encodes strings
-           (`fromSamples_safeSchema`); with `string_dictionary_encoding` / `enums_without_data_as_strings` it CAN fail
-           (`safeSchema_can_fail`: a non-nullable string inside an `Option<struct>`) — C01's `dict_placeholder_unstable`
-           situation, a limit of the proof (R1 is stated per builder), not a defect: `to_marrow` accepts that
-           collection too (`safeSchema_can_fail`, evaluated);
   `hcap`   capacity in closed form: the sizes of the samples sum to at most `i32::MAX = 2^31 - 1` (`fromSamples_room`).
-No longer hypotheses: `total` and the typing invariant `typedFs` (`to_schema_typed`), that `build_builder` accepts the
-schema (`newRoot_traced`), the C01 side conditions (`to_schema_side_of_WF`). -/
+ONLY input-side hypotheses + capacity.  No longer hypotheses: C01's `Safe` (the former `hsafe : safeSchema fields`; the
+builder side is `Props.C01.toMarrow_complete'`, the completeness theorem on the weak state invariant — a traced schema
+with a non-nullable dictionary-encoded string inside an `Option<struct>`, `safeSchema_can_fail`, is covered), `total` and the
+typing invariant `typedFs` (`to_schema_typed`), that `build_builder` accepts the schema (`newRoot_traced`), the C01 side
+conditions (`to_schema_side_of_WF`: `coveredF` is what `toMarrow_complete'` asks of the schema). -/
 theorem C06_closure_build (o : Options) (ext : Ext) (h0 : o.overwrites = []) (xs : List SVal) (fields : List Field)
     (h : fromSamples .fixed o xs = .ok fields)
     (hok : ∀ x ∈ xs, SampleOK o x) (hex : ∀ x ∈ xs, excludedRow ext fields x = false)
-    (hsafe : safeSchema fields = true)
     (hcap : (xs.map (vsize ext)).sum ≤ 2147483647) :
     ∃ arrs, toMarrow ext fields xs = .ok arrs := by
   obtain ⟨t, n, children, md, ht, hs, _, _⟩ := fromSamples_root h
   have hside := to_schema_side_of_WF o h0 t (fromSamples_inv ht).wf fields hs
   obtain ⟨root0, hnew⟩ := newRoot_traced o h0 t (fromSamples_inv ht) fields hs
   obtain ⟨htyped, htot, _⟩ := to_schema_typed o h0 h
-  exact Props.C01.toMarrow_complete ext fields xs root0 hside.2 hnew ((fromSamples_safe_iff o h0 h hnew).mpr hsafe)
-    htot htyped
+  exact Props.C01.toMarrow_complete' ext fields xs root0 hside.2 hnew htot htyped
     (fun r hr => ⟨sampleOK_noRaw _ r (hok r hr), fromSamples_interpRow o ext h0 h r hr (hok r hr) (hex r hr)⟩)
     (by rw [fromSamples_room o h0 h hnew]; exact hcap)
 
@@ -216,12 +214,11 @@ theorem C06_closure_build (o : Options) (ext : Ext) (h0 : o.overwrites = []) (xs
 
 /-- **`C06_closure_decode`**.  Whenever `to_marrow` with the traced schema returns arrays for the collection, there is one
 array per traced field and slot `i` of the arrays, read by the Arrow rules (`Spec.decodeAll`), is column by column the
-documented value of sample `i`.  The schema side conditions of `C01_build_decode` (`SchemaOKF`, `coveredF`) are
-discharged from the shape of traced schemas (`Lemmas/C06Side.lean`). -/
+documented value of sample `i`.  The schema side conditions of `C01_build_decode'` (`SchemaOKF`, `coveredF`) are
+discharged from the shape of traced schemas (`Lemmas/C06Side.lean`); no `Safe`. -/
 theorem C06_closure_decode (o : Options) (ext : Ext) (h0 : o.overwrites = []) (xs : List SVal) (fields : List Field)
     (arrs : List Arr) (h : fromSamples .fixed o xs = .ok fields)
     (hok : ∀ x ∈ xs, SampleOK o x)
-    (hsafe : ∀ root0, newRoot fields = .ok root0 → Safe root0)
     (hm : toMarrow ext fields xs = .ok arrs) :
     arrs.length = fields.length ∧
     ∃ cols : List (String × List LVal),
@@ -232,7 +229,7 @@ theorem C06_closure_decode (o : Options) (ext : Ext) (h0 : o.overwrites = []) (x
         interpRow ext fields xs[i] = .ok (.struct (LFields.ofList (cols.map fun c => (c.1, c.2.getD i .null)))) := by
   obtain ⟨t, n, children, md, ht, hs, _, _⟩ := fromSamples_root h
   have hside := to_schema_side_of_WF o h0 t (fromSamples_inv ht).wf fields hs
-  exact Props.C01.C01_build_decode ext fields xs arrs hside.1 hside.2 hsafe
+  exact Props.C01.C01_build_decode' ext fields xs arrs hside.1 hside.2
     (fun x hx => Build.noRaw_ssa x (sampleOK_noRaw _ x (hok x hx))) (Or.inl fun x hx => sampleOK_noRaw _ x (hok x hx)) hm
 
 /-- the traced schema is one the reader supports (`Lemmas/C06Readable.lean`) -/
@@ -246,7 +243,7 @@ column `j` reads as the `toD` rendering of the logical value the documented mapp
 (`cols` as in `C06_closure_decode`: `interpRow ext fields xs[i]` is the struct of the `i`-th column entries).
 Every tracing option.  The reader-side preconditions `Read.new … = ok` and `utf8Ok` of `read_any_decode` are no longer
 hypotheses: they are derived for the built arrays (`Props.C03.toMarrow_readAny_partial`: `wf_new` with
-`fromSamples_readable`, `wf_utf8`) from `C03_wf`, whose input-side hypotheses appear instead — `hext` (`ExtOK`: the external
+`fromSamples_readable`, `wf_utf8`) from `C03_wf'`, whose input-side hypotheses appear instead — `hext` (`ExtOK`: the external
 chrono parsers return values in range; a theorem for the codec models, `Props.C03.codecExt_ok`) and `hval` (`SValOK`: f32 /
 f64 / integer calls carry values of their width; implied by `SVal.typed`).
 PARTIAL — what remains: `hphys`, the size precondition `Read.physical` (the value count of a dictionary column fits `i64`):
@@ -256,7 +253,6 @@ not derived HERE (this theorem has no size hypothesis on the samples, and `Spec.
 theorem C06_closure_readback_partial (o : Options) (ext : Ext) (h0 : o.overwrites = []) (xs : List SVal)
     (fields : List Field) (arrs : List Arr) (h : fromSamples .fixed o xs = .ok fields)
     (hok : ∀ x ∈ xs, SampleOK o x)
-    (hsafe : ∀ root0, newRoot fields = .ok root0 → Safe root0)
     (hext : Lemmas.C03.ExtOK ext)
     (hval : ∀ x ∈ xs, Lemmas.C03.SValOK x)
     (hm : toMarrow ext fields xs = .ok arrs)
@@ -270,14 +266,14 @@ theorem C06_closure_readback_partial (o : Options) (ext : Ext) (h0 : o.overwrite
   obtain ⟨t, n, children, md, ht, hs, _, _⟩ := fromSamples_root h
   have hside := to_schema_side_of_WF o h0 t (fromSamples_inv ht).wf fields hs
   have hread := fromSamples_readable o h0 h
-  obtain ⟨_, cols, hcl, _, hc4, hrd⟩ := Props.C03.toMarrow_readAny_partial ext fields xs arrs hside.1 hside.2 hsafe
+  obtain ⟨_, cols, hcl, _, hc4, hrd⟩ := Props.C03.toMarrow_readAny_partial ext fields xs arrs hside.1 hside.2
     (fun x hx => sampleOK_noRaw _ x (hok x hx)) hext hval (fun f hf => Lemmas.C03.readableDT_of_F (hread f hf)) hphys hm
   exact ⟨cols, hcl, hc4, hrd⟩
 
-/-- **`C06_closure_readback`**: the same with NO reader-side hypothesis and NO `Safe` hypothesis, for tracing options that
+/-- **`C06_closure_readback`**: the same with NO reader-side hypothesis, for tracing options that
 never dictionary-encode strings (`string_dictionary_encoding = false`, `enums_without_data_as_strings = false`): the
-traced schema then has no Dictionary (and never a FixedSizeList) column — `Lemmas.C06.to_schema_physFree` —, `Read.physical`
-follows from `Spec.WF` (`Props.C03.wf_physical_partial`) and C01's `Safe` holds (`fromSamples_safeSchema`).  Trace ⇒ build ⇒
+traced schema then has no Dictionary (and never a FixedSizeList) column — `Lemmas.C06.to_schema_physFree` — and `Read.physical`
+follows from `Spec.WF` (`Props.C03.wf_physical_partial`).  Trace ⇒ build ⇒
 read back: whenever `to_marrow` with the traced schema returns arrays for the collection, `deserialize_any` on slot `i` of
 column `j` returns the documented value of field `j` of sample `i`.  Remaining hypotheses are all on the input side: `hok`
 (samples are serde values), `hext`, `hval` (C03's `ExtOK`, `SValOK`). -/
@@ -297,10 +293,8 @@ theorem C06_closure_readback (o : Options) (ext : Ext) (h0 : o.overwrites = []) 
   obtain ⟨t, n, children, md, ht, hs, _, _⟩ := fromSamples_root h
   have hside := to_schema_side_of_WF o h0 t (fromSamples_inv ht).wf fields hs
   have hfree := to_schema_physFree o h0 hd he t (fromSamples_inv ht).wf fields hs
-  have hsafe : ∀ root0, newRoot fields = .ok root0 → Safe root0 :=
-    fun root0 hnew => (fromSamples_safe_iff o h0 h hnew).mpr (fromSamples_safeSchema o h0 hd he h)
-  exact C06_closure_readback_partial o ext h0 xs fields arrs h hok hsafe hext hval hm
-    (Props.C03.toMarrow_physical_partial ext fields xs arrs hside.1 hsafe hext hval hfree hm)
+  exact C06_closure_readback_partial o ext h0 xs fields arrs h hok hext hval hm
+    (Props.C03.toMarrow_physical_partial ext fields xs arrs hside.1 (Or.inr hside.2) hext hval hfree hm)
 
 /-! ### the closure, composed -/
 
@@ -327,10 +321,8 @@ theorem C06_closure (o : Options) (ext : Ext) (h0 : o.overwrites = []) (xs : Lis
         ∀ (j : Nat) (hj : j < arrs.length) (i : Nat), i < xs.length →
           ∃ lv, (cols[j]?.map (·.2[i]?)) = some (some lv) ∧
             Read.readAny Read.Fixes.all arrs[j] i = .ok (Read.toD arrs[j] lv) := by
-  obtain ⟨arrs, hm⟩ := C06_closure_build o ext h0 xs fields h hok hex (fromSamples_safeSchema o h0 hd he h) hcap
-  have hsafe : ∀ root0, newRoot fields = .ok root0 → Safe root0 :=
-    fun root0 hnew => (fromSamples_safe_iff o h0 h hnew).mpr (fromSamples_safeSchema o h0 hd he h)
-  exact ⟨arrs, hm, (C06_closure_decode o ext h0 xs fields arrs h hok hsafe hm).1,
+  obtain ⟨arrs, hm⟩ := C06_closure_build o ext h0 xs fields h hok hex hcap
+  exact ⟨arrs, hm, (C06_closure_decode o ext h0 xs fields arrs h hok hm).1,
     C06_closure_readback o ext h0 xs fields arrs h hd he hok hext hval hm⟩
 
 /-- **`C06_closure_physical`**: the size precondition `Read.physical` of the reader (the value count of every Dictionary
@@ -338,27 +330,26 @@ column fits `i64`) holds for the arrays `to_marrow` builds from a traced schema 
 included — when the samples sum to LESS than the fresh head room `2^31 - 1`.  No counting of distinct strings: the builders'
 own capacity accounting bounds the value count.  `room` is at most the number of free keys of every dictionary
 (`2^32 - index.length` for the UInt32 keys the tracer emits), completeness of `push` gives `room root0 ≤ room root + Σ vsize`
-(`Props.C01.foldl_push_complete`), `room root0 = 2^31 - 1` (`fromSamples_room`); so `1 ≤ room root`, every dictionary of the
+(`Props.C01.foldl_push_complete'`), `room root0 = 2^31 - 1` (`fromSamples_room`); so `1 ≤ room root`, every dictionary of the
 final state holds fewer than `2^32` values (`Lemmas.C06.physB_of_room`), and `into_array` keeps that
-(`Lemmas.C06.finish_physical`).  (`Props.C03.wf_not_physical`: `Spec.WF` of the arrays alone could not give it.) -/
+(`Lemmas.C06.finish_physical`, on the weak state invariant `WFH`: no `Safe`).  (`Props.C03.wf_not_physical`: `Spec.WF` of the arrays alone could not give it.) -/
 theorem C06_closure_physical (o : Options) (ext : Ext) (h0 : o.overwrites = []) (xs : List SVal) (fields : List Field)
     (arrs : List Arr) (h : fromSamples .fixed o xs = .ok fields)
     (hok : ∀ x ∈ xs, SampleOK o x) (hex : ∀ x ∈ xs, excludedRow ext fields x = false)
-    (hsafe : safeSchema fields = true)
     (hcap : (xs.map (vsize ext)).sum < 2147483647)
     (hm : toMarrow ext fields xs = .ok arrs) : ∀ a ∈ arrs, Read.physical a = true := by
   obtain ⟨t, n, children, md, ht, hs, _, _⟩ := fromSamples_root h
   have hside := to_schema_side_of_WF o h0 t (fromSamples_inv ht).wf fields hs
   obtain ⟨root0, hnew⟩ := newRoot_traced o h0 t (fromSamples_inv ht) fields hs
   obtain ⟨_, htot, _⟩ := to_schema_typed o h0 h
-  have hsafe0 : Safe root0 := (fromSamples_safe_iff o h0 h hnew).mpr hsafe
   have hroom0 := fromSamples_room o h0 h hnew
-  obtain ⟨root, hfold, hroom⟩ := Props.C01.foldl_push_complete ext (.struct (Fields.ofList fields)) false [] xs root0
-    (newRoot_fresh hnew).1 hsafe0 (newRoot_shape hside.2 hnew) (by simp [total, htot])
+  obtain ⟨root, hfold, hroom⟩ := Props.C01.foldl_push_complete' ext (.struct (Fields.ofList fields)) false [] xs root0
+    (Build.WFH_of_WFB _ (newRoot_fresh hnew).1) (Build.newRoot_NoDictKey hnew) (newRoot_shape hside.2 hnew)
+    (by simp [total, htot])
     (fun r hr => ⟨sampleOK_noRaw _ r (hok r hr), fromSamples_interpRow o ext h0 h r hr (hok r hr) (hex r hr)⟩)
     (by rw [hroom0]; omega)
   have hrun : runRows ext fields xs = .ok root := by simp only [runRows, hnew]; exact hfold
-  have hw := (Props.C01.runRows_rows ext fields xs root0 root hnew hsafe0 hrun).1
+  have hw := (Props.C01.runRows_rows' ext fields xs root0 root hnew hrun).1
   have hb := Lemmas.C03.runRows_builtFor ext fields xs root (Build.push_takeRest ext) hrun
   have hp := physB_of_room root _ false hb
     (by simpa [physKeysDT] using to_schema_physKeys o h0 t (fromSamples_inv ht).wf fields hs) (by omega)
@@ -376,18 +367,14 @@ theorem C06_closure_physical (o : Options) (ext : Ext) (h0 : o.overwrites = []) 
 /-- **`C06_closure_dict`** — the closure for EVERY option, dictionary-encoded strings (`string_dictionary_encoding`,
 `enums_without_data_as_strings`) included: whenever `from_samples` succeeds on the collection, `to_marrow` with the traced
 schema accepts it, the documented mapping of sample `i` is the struct of the `i`-th column entries, and `deserialize_any`
-reproduces every entry.  No hypothesis on the builder or the arrays (`Read.physical` is derived: `C06_closure_physical`).
-Compared with `C06_closure`:
-  `hsafe`  `safeSchema fields` — C01's exclusion, a decidable predicate on the traced schema (exactly `Safe` of the fresh
-           builder, `fromSamples_safe_iff`).  It can fail (`safeSchema_can_fail`: a non-nullable dictionary-encoded string
-           inside an `Option<struct>`).  Those collections are OUTSIDE this theorem although `to_marrow` accepts them: C01's
-           append-only statement R1 is false there builder by builder (`Props.C01.dict_placeholder_unstable`); a limit of the
-           proof, not of the crate;
-  `hcap`   strict: the sizes sum to less than `2^31 - 1`. -/
+reproduces every entry.  No hypothesis on the schema, the builder or the arrays (`Read.physical` is derived:
+`C06_closure_physical`; C01's `Safe` — the former `hsafe : safeSchema fields` — is gone: a non-nullable dictionary-encoded
+string inside an `Option<struct>`, where the per-builder append-only statement R1 is false
+(`Props.C01.dict_placeholder_unstable`), is covered by the hidden-rows refinement; worked instance below, `wUnsafe`).
+Compared with `C06_closure`: `hcap` is strict — the sizes sum to less than `2^31 - 1`. -/
 theorem C06_closure_dict (o : Options) (ext : Ext) (h0 : o.overwrites = []) (xs : List SVal) (fields : List Field)
     (h : fromSamples .fixed o xs = .ok fields)
     (hok : ∀ x ∈ xs, SampleOK o x) (hex : ∀ x ∈ xs, excludedRow ext fields x = false)
-    (hsafe : safeSchema fields = true)
     (hcap : (xs.map (vsize ext)).sum < 2147483647)
     (hext : Lemmas.C03.ExtOK ext)
     (hval : ∀ x ∈ xs, Lemmas.C03.SValOK x) :
@@ -398,12 +385,10 @@ theorem C06_closure_dict (o : Options) (ext : Ext) (h0 : o.overwrites = []) (xs 
         ∀ (j : Nat) (hj : j < arrs.length) (i : Nat), i < xs.length →
           ∃ lv, (cols[j]?.map (·.2[i]?)) = some (some lv) ∧
             Read.readAny Read.Fixes.all arrs[j] i = .ok (Read.toD arrs[j] lv) := by
-  obtain ⟨arrs, hm⟩ := C06_closure_build o ext h0 xs fields h hok hex hsafe (by omega)
-  have hsafe' : ∀ root0, newRoot fields = .ok root0 → Safe root0 :=
-    fun root0 hnew => (fromSamples_safe_iff o h0 h hnew).mpr hsafe
-  exact ⟨arrs, hm, (C06_closure_decode o ext h0 xs fields arrs h hok hsafe' hm).1,
-    C06_closure_readback_partial o ext h0 xs fields arrs h hok hsafe' hext hval hm
-      (C06_closure_physical o ext h0 xs fields arrs h hok hex hsafe hcap hm)⟩
+  obtain ⟨arrs, hm⟩ := C06_closure_build o ext h0 xs fields h hok hex (by omega)
+  exact ⟨arrs, hm, (C06_closure_decode o ext h0 xs fields arrs h hok hm).1,
+    C06_closure_readback_partial o ext h0 xs fields arrs h hok hext hval hm
+      (C06_closure_physical o ext h0 xs fields arrs h hok hex hcap hm)⟩
 
 /-! ### non-vacuity and necessity of the exclusions (kernel evaluation) -/
 
@@ -411,7 +396,7 @@ theorem C06_closure_dict (o : Options) (ext : Ext) (h0 : o.overwrites = []) (xs 
 def closureHypsB (o : Options) (xs : List SVal) : Bool :=
   match fromSamples .fixed o xs with
   | .ok fields =>
-    xs.all (fun x => sampleOK o.map_as_struct x && !excludedRow {} fields x) && safeSchema fields &&
+    xs.all (fun x => sampleOK o.map_as_struct x && !excludedRow {} fields x) &&
       decide ((xs.map (vsize {})).sum ≤ 2147483647) && (toMarrow {} fields xs).isOk
   | .error _ => false
 
@@ -424,7 +409,7 @@ def wClosure : List SVal := [
 
 set_option maxRecDepth 1000000 in
 /-- non-vacuity of `fromSamples_interpRow` / `C06_closure_build`: tracing succeeds, every sample is well formed and not
-excluded, the schema is `safeSchema`, the samples fit — and (the conclusion, evaluated) `to_marrow` succeeds -/
+excluded, the samples fit — and (the conclusion, evaluated) `to_marrow` succeeds -/
 example : closureHypsB { allow_null_fields := true } wClosure = true := by decide +kernel
 
 /-- a collection for the dictionary options: dictionary-encoded strings, a data-less enum traced as strings, and — below a
@@ -436,8 +421,8 @@ def wClosureDict : List SVal := [
   recOf [("s", .str "b"), ("e", .unitVariant "E" 0 "A"), ("o", .none)]]
 
 set_option maxRecDepth 1000000 in
-/-- non-vacuity of `C06_closure_build` with dictionaries and a union below a nullable struct: all hypotheses hold
-(`safeSchema` included), and `to_marrow` succeeds -/
+/-- non-vacuity of `C06_closure_build` with dictionaries and a union below a nullable struct: all hypotheses hold, and
+`to_marrow` succeeds -/
 example : closureHypsB { string_dictionary_encoding := true, enums_without_data_as_strings := true } wClosureDict = true := by
   decide +kernel
 
@@ -446,11 +431,12 @@ example : closureHypsB { string_dictionary_encoding := true, enums_without_data_
 def wUnsafe : List SVal := [recOf [("o", .some (recOf [("d", .str "x")]))], recOf [("o", .none)]]
 
 set_option maxRecDepth 1000000 in
-/-- **`safeSchema` can fail for a traced schema** (so it stays a hypothesis with the dictionary options): the tracer gives
-the Dictionary field the nullability of the string position, `build_builder` gives the key builder that nullability, and the
-`None` of the second sample sends `serialize_default` into non-nullable keys — C01's `dict_placeholder_unstable` shape.
-This is a limit of the PROOF (C01's R1 is stated builder by builder), not a defect: every other hypothesis of
-`C06_closure_build` holds and `to_marrow` accepts the collection (evaluated). -/
+/-- **`safeSchema` can fail for a traced schema** (why the closure theorems needed the hidden-rows refinement): the tracer
+gives the Dictionary field the nullability of the string position, `build_builder` gives the key builder that nullability, and
+the `None` of the second sample sends `serialize_default` into non-nullable keys — C01's `dict_placeholder_unstable` shape,
+where the per-builder append-only statement R1 is false.  Every hypothesis of `C06_closure_build` / `C06_closure_dict` holds
+and `to_marrow` accepts the collection (evaluated): the collection is INSIDE the present theorems (instance below), it was
+outside the former ones, which assumed `safeSchema`. -/
 theorem safeSchema_can_fail :
     (match fromSamples .fixed { string_dictionary_encoding := true } wUnsafe with
      | .ok fields =>
@@ -573,13 +559,45 @@ example : ∃ arrs, toMarrow {} wDictFields wDict = .ok arrs ∧ arrs.length = w
       ∀ (j : Nat) (hj : j < arrs.length) (i : Nat), i < wDict.length →
         ∃ lv, (cols[j]?.map (·.2[i]?)) = some (some lv) ∧
           Read.readAny Read.Fixes.all arrs[j] i = .ok (Read.toD arrs[j] lv) := by
-  refine C06_closure_dict { string_dictionary_encoding := true } {} rfl wDict wDictFields wDict_trace ?_ ?_ ?_ ?_ ?_ ?_
+  refine C06_closure_dict { string_dictionary_encoding := true } {} rfl wDict wDictFields wDict_trace ?_ ?_ ?_ ?_ ?_
   · decide
   · decide +kernel
-  · decide
   · decide +kernel
   · constructor <;> (intros; rename_i h; cases h)
   · simp [wDict, recOf, i32, SFields.ofList, Lemmas.C03.SValOK, Lemmas.C03.SFieldsOK, Lemmas.C03.ScalarOK,
       IntTy.inRange, IntTy.min, IntTy.max]
+
+/-! ### the closure OUTSIDE `Safe`: the collection of `safeSchema_can_fail` -/
+
+def wUnsafeFields : List Field :=
+  [.mk "o" (.struct (.cons (.mk "d" (.dictionary .uint32 .largeUtf8) false []) .nil)) true []]
+
+set_option maxRecDepth 1000000 in
+theorem wUnsafe_trace : fromSamples .fixed { string_dictionary_encoding := true } wUnsafe = .ok wUnsafeFields := by
+  decide +kernel
+
+/-- the traced schema is outside C01's `Safe` (a dictionary with NON-nullable keys below the nullable struct `o`) … -/
+example : safeSchema wUnsafeFields = false ∧ ∀ root0, newRoot wUnsafeFields = .ok root0 → ¬ Safe root0 := by
+  refine ⟨by decide +kernel, fun root0 hnew hs => ?_⟩
+  have := (fromSamples_safe_iff { string_dictionary_encoding := true } rfl wUnsafe_trace hnew).mp hs
+  revert this; decide +kernel
+
+/-- … and `C06_closure_dict` applies to it with EVERY hypothesis discharged: `to_marrow` accepts `[{o: Some({d: "x"})},
+{o: None}]` against the schema traced from it (the `None` sends the placeholder key 0 into the non-nullable dictionary
+keys), the documented mapping of sample `i` is the struct of the `i`-th column entries, and `deserialize_any` reproduces
+every entry -/
+example : ∃ arrs, toMarrow {} wUnsafeFields wUnsafe = .ok arrs ∧ arrs.length = wUnsafeFields.length ∧
+    ∃ cols : List (String × List LVal), cols.length = arrs.length ∧
+      (∀ (i : Nat) (hi : i < wUnsafe.length),
+        interpRow {} wUnsafeFields wUnsafe[i] = .ok (.struct (LFields.ofList (cols.map fun c => (c.1, c.2.getD i .null))))) ∧
+      ∀ (j : Nat) (hj : j < arrs.length) (i : Nat), i < wUnsafe.length →
+        ∃ lv, (cols[j]?.map (·.2[i]?)) = some (some lv) ∧
+          Read.readAny Read.Fixes.all arrs[j] i = .ok (Read.toD arrs[j] lv) := by
+  refine C06_closure_dict { string_dictionary_encoding := true } {} rfl wUnsafe wUnsafeFields wUnsafe_trace ?_ ?_ ?_ ?_ ?_
+  · decide
+  · decide +kernel
+  · decide +kernel
+  · constructor <;> (intros; rename_i h; cases h)
+  · simp [wUnsafe, recOf, SFields.ofList, Lemmas.C03.SValOK, Lemmas.C03.SFieldsOK, Lemmas.C03.ScalarOK]
 
 end SaModel.Props.C06
